@@ -356,3 +356,17 @@ Definition set_typed_model (b : base) (is_list : bool) (chain : list tlevel) (st
   end.
 
 End WithRegex.
+
+(** ** Unions of integer types (node/value.go NewValue, case val.FmtUnion): val.ConvOneOf takes the
+    first member format the value converts to; CheckFieldPreConstraints has no case for
+    FmtUnion, so the members' own restrictions are never looked at (known finding 3).  A member
+    is its built-in integer kind and the text of its range statement. *)
+Definition union_loads (ms : list (ikind * option text)) : bool :=
+  forallb (fun m => match snd m with
+                    | None => true
+                    | Some t => match parse_range t with Some _ => true | None => false end
+                    end) ms.
+Definition union_accept (ms : list (ikind * option text)) (z : Z) : outcome :=
+  if union_loads ms then
+    if existsb (fun m => in_kind (fst m) z) ms then Accepted else Rejected
+  else LoadErr.
